@@ -434,10 +434,7 @@ func describeMismatch(b, in []byte, off int) string {
 // sequence. featureClass prefixes the class with the trigger feature of the
 // known defect so that it cannot mask anything else.
 func checkBounds(k *vlib.Case, sp spec, lens []int, fr *fragReader) {
-	pre := ""
-	if sp.avgLt48 {
-		pre = "rabin-avg-lt-48/"
-	}
+	pre := "" // (rabin-N with N<48 used to get its own class prefix; the parser rejects it since 45fc115)
 	for i, l := range lens {
 		last := i == len(lens)-1
 		if l > chunk.ChunkSizeLimit {
@@ -607,11 +604,7 @@ func rejectCase(mode string) func(k *vlib.Case) {
 			return nil
 		}()
 		if panicked != nil {
-			class := "parse-panic"
-			if strings.HasPrefix(s, "rabin-") && strings.Count(s, "-") == 1 && len(s) >= len("rabin-6148914691236517206") {
-				class = "parse-panic/rabin-avg-overflow"
-			}
-			k.Fail(class, "FromString returns a splitter or an error", "error", fmt.Sprintf("panic: %v", panicked))
+			k.Fail("parse-panic", "FromString returns a splitter or an error", "error", fmt.Sprintf("panic: %v", panicked))
 			return
 		}
 		if (sp == nil) == (err == nil) {
